@@ -219,6 +219,42 @@ def run(rep, tier, seed):
                 if not ratio <= bound_for("ode15s", mode, 1e-3, name):
                     fails.append((case, f"ode15s on {name} with hmax = {hm}: error / (atol + rtol|y|) = {ratio:.3g} at t = {at} exceeds "
                                         f"{bound_for('ode15s', mode, 1e-3, name)}"))
+    # ---- (a) a tiny coupling coefficient on the diagonal of the iteration matrix (algebraic variable declared first): the linear
+    #          algebra must pivot around it;  (b) a problem living on the scale 1e-13 with an absolute tolerance to match
+    from scipy.sparse import csc_array as _csc
+    from Solverz.num_api.num_eqn import nDAE as _nDAE
+    eps_c = 1e-11
+    Mc = _csc((np.array([1.0]), (np.array([0]), np.array([1]))), shape=(2, 2))                  # y = (z, x): row 0 is x' = ...
+    tiny = _nDAE(Mc, lambda t, y, p: np.array([-y[1] + eps_c * y[0], y[0] - y[1] ** 2]),
+                 lambda t, y, p: _csc(np.array([[eps_c, -1.0], [1.0, -2.0 * y[1]]])), {})
+    x_ex = lambda t: 1.0 / ((1.0 - eps_c) * np.exp(t) + eps_c)                                   # Bernoulli, x(0) = 1
+    ex_tiny = lambda t: np.array([x_ex(t) ** 2, x_ex(t)])
+    S = 1e-13
+    Ms = _csc((np.array([1.0, 1.0]), (np.array([0, 1]), np.array([0, 1]))), shape=(3, 3))
+    scaled = _nDAE(Ms, lambda t, y, p: np.array([-y[0] + y[1], -50.0 * y[1], y[2] - (y[0] + 2.0 * y[1])]),
+                   lambda t, y, p: _csc(np.array([[-1.0, 1.0, 0.0], [0.0, -50.0, 0.0], [-1.0, -2.0, 1.0]])), {})
+    ex_scaled = lambda t: np.array([S * (50 / 49 * np.exp(-t) - np.exp(-50 * t) / 49), S * np.exp(-50 * t),
+                                    S * (50 / 49 * np.exp(-t) - np.exp(-50 * t) / 49) + 2 * S * np.exp(-50 * t)])
+    extra = [("dae x'=-x+1e-11 z, 0=z-x^2 (z first)", tiny, np.array([1.0, 1.0]), ex_tiny, [(1e-8, 1e-11)], 2000.0),
+             ("linear index-1 DAE on the scale 1e-13", scaled, np.array([S, S, 3 * S]), ex_scaled, [(1e-4, 1e-20), (1e-6, 1e-22)], 100.0)]
+    for name, dae, y0, exact, tl, bnd in extra:
+        for rtol, atol in tl:
+            for mode in ("two", "dense"):
+                tspan = [0.0, 2.0] if mode == "two" else list(np.linspace(0.0, 2.0, 41))
+                for sname, solver in solvers:
+                    case = dict(problem=name, solver=sname, rtol=rtol, atol=atol, tspan=mode)
+                    nruns += 1
+                    try:
+                        sol = RC.quiet(solver, dae, tspan, y0.copy(), dict(rtol=rtol, atol=atol))
+                    except Exception as ex:  # noqa
+                        fails.append((case, f"{sname} raised {type(ex).__name__}: {str(ex)[:100]}")); continue
+                    if getattr(sol.stats, "ret", None) == "failed":
+                        continue
+                    ratio, at = ratio_of(sol, exact, rtol, atol)
+                    table[(sname, "extra-" + mode, rtol)] = max(table.get((sname, "extra-" + mode, rtol), 0.0), ratio)
+                    if not ratio <= bnd:
+                        fails.append((case, f"{sname} on {name}: error / (atol + rtol|y|) = {ratio:.3g} at t = {at} exceeds {bnd} (rtol {rtol:g}, atol {atol:g}, "
+                                            f"{mode}-node tspan)"))
     # ---- a fast but smooth nonlinear transition: the end point is swept across its onset (step cuts on the last step)
     from scipy.integrate import solve_ivp
     from scipy.sparse import csc_array
